@@ -66,9 +66,46 @@ def work(arg):
         sc = gen(rng)
         s2 = rng.getrandbits(32)
         ch = dsched.PCTChooser(random.Random(s2), depth=rng.choice([2, 4, 8])) if i % 2 else dsched.RandomChooser(random.Random(s2))
-        r = datarun.run_scenario(sc, ch, eager=(), probe=False)
-        out.append(digest(r))
+        fine = (i % 8 == 7)
+        if fine:
+            # line-granular preemption (oracle only): few producers, small payloads, switches biased to stay on a thread
+            sc.sizes = {k: min(v, 100) for k, v in sc.sizes.items()}
+            ch = dsched.RandomChooser(random.Random(s2))
+        r = datarun.run_scenario(sc, ch, eager=(), probe=False, fine=fine, fine_seed=s2)
+        d = digest(r) if not fine else digest_fine(r, s2)
+        out.append(d)
     return out
+
+
+class StickyChooser:
+    """keeps running the same thread with probability `stay` (else uniform): at line granularity a uniform choice at every
+    step would never let a thread get anywhere"""
+
+    def __init__(self, rng, stay=0.9):
+        self.rng = rng
+        self.stay = stay
+        self.last = None
+        self.taken = []
+
+    def __call__(self, en, sched):
+        if self.last in en and self.rng.random() < self.stay:
+            t = self.last
+        else:
+            t = en[self.rng.randrange(len(en))]
+        self.last = t
+        self.taken.append((en.index(t), len(en)))
+        return t
+
+
+def digest_fine(r, fine_seed):
+    F = datarun.Facts(r)
+    viol = [{'case': {'scenario': r.sc.describe(), 'schedule': [c for c, _ in r.taken], 'source': 'fine', 'fine_seed': fine_seed}, 'detail': d, 'key': k, 'kind': 'schedule'}
+            for d, k in datarun.oracle_c16(r, F)]
+    if r.crashes:
+        viol.append({'case': {'scenario': r.sc.describe(), 'schedule': [c for c, _ in r.taken], 'source': 'fine', 'fine_seed': fine_seed},
+                     'detail': 'a library thread / pool job died with %r' % (r.crashes[0],), 'key': {'kind': 'crash'}, 'kind': 'schedule'})
+    return {'labels': None, 'sent': [], 'viol': viol, 'status': r.status, 'nprod': 0, 'scenario': r.sc.describe(),
+            'schedule': [c for c, _ in r.taken], 'big': 0, 'fine': True}
 
 
 def run(ctx, res):
@@ -87,7 +124,14 @@ def run(ctx, res):
         k += shard
     with multiprocessing.get_context('fork').Pool(nproc) as pool:
         results = pool.map(work, jobs, chunksize=1)
-    digs = [d for out in results for d in out]
+    alld = [d for out in results for d in out]
+    for d in alld:
+        if d.get('fine'):
+            res.evaluations += 1
+            res.count('line-granular (oracle only)' + ('' if d['status'] == 'quiescent' else ':' + d['status']))
+            for v in d['viol']:
+                res.oracle_violations.append(v)
+    digs = [d for d in alld if not d.get('fine')]
     outs = ctx.model([[sym('outbound_run'), d['labels']] for d in digs])
     for d, m in zip(digs, outs):
         res.evaluations += 1
@@ -238,6 +282,7 @@ def replay(ctx, data):
     sc = itemprops.scenario_from(c['scenario'])
     sc.sizes = {int(k): v for k, v in (c['scenario'].get('sizes') or {}).items()}
     sc.fail_send = c['scenario'].get('fail_send')
-    r = datarun.run_scenario(sc, dsched.ListChooser(c['schedule']), eager=(), probe=False)
+    fine = c.get('source') == 'fine'
+    r = datarun.run_scenario(sc, dsched.ListChooser(c['schedule']), eager=(), probe=False, fine=fine, fine_seed=c.get('fine_seed', 0))
     v = datarun.oracle_c16(r, datarun.Facts(r))
     return bool(v), 'oracle: %r' % (v[:3],)
